@@ -28,18 +28,20 @@ theorem h64_6 (x : BitVec 64) : int64_hash_inverse_step2 (int64_hash_step6 x) = 
   unfold int64_hash_inverse_step2 int64_hash_step6; bv_decide
 theorem h64_5 (x : BitVec 64) : int64_hash_inverse_step3 (int64_hash_step5 x) = x := by
   unfold int64_hash_inverse_step3 int64_hash_step5
-  have h : x + (x <<< 2) + (x <<< 4) = x * 21#64 := by bv_decide
-  rw [h, BitVec.mul_assoc]
-  have : 21#64 * 14933078535860113213#64 = 1#64 := by decide
-  rw [this, BitVec.mul_one]
+  have hc : 21#64 * 14933078535860113213#64 = 1#64 := by decide
+  first
+  | (have h : x + (x <<< 2) + (x <<< 4) = x * 21#64 := by bv_decide
+     rw [h, BitVec.mul_assoc, hc, BitVec.mul_one])
+  | rw [BitVec.mul_assoc, hc, BitVec.mul_one]   -- the source spells the step `key.wrapping_mul(21)`
 theorem h64_4 (x : BitVec 64) : int64_hash_inverse_step4 (int64_hash_step4 x) = x := by
   unfold int64_hash_inverse_step4 int64_hash_step4; bv_decide
 theorem h64_3 (x : BitVec 64) : int64_hash_inverse_step5 (int64_hash_step3 x) = x := by
   unfold int64_hash_inverse_step5 int64_hash_step3
-  have h : x + (x <<< 3) + (x <<< 8) = x * 265#64 := by bv_decide
-  rw [h, BitVec.mul_assoc]
-  have : 265#64 * 15244667743933553977#64 = 1#64 := by decide
-  rw [this, BitVec.mul_one]
+  have hc : 265#64 * 15244667743933553977#64 = 1#64 := by decide
+  first
+  | (have h : x + (x <<< 3) + (x <<< 8) = x * 265#64 := by bv_decide
+     rw [h, BitVec.mul_assoc, hc, BitVec.mul_one])
+  | rw [BitVec.mul_assoc, hc, BitVec.mul_one]   -- `key.wrapping_mul(265)`
 theorem h64_2 (x : BitVec 64) : int64_hash_inverse_step6 (int64_hash_step2 x) = x := by
   unfold int64_hash_inverse_step6 int64_hash_step2; bv_decide
 theorem h64_1 (x : BitVec 64) : int64_hash_inverse_step7 (int64_hash_step1 x) = x := by
@@ -58,17 +60,19 @@ theorem g64_2 (x : BitVec 64) : int64_hash_step2 (int64_hash_inverse_step6 x) = 
 theorem g64_3 (x : BitVec 64) : int64_hash_step3 (int64_hash_inverse_step5 x) = x := by
   unfold int64_hash_inverse_step5 int64_hash_step3
   have h : ∀ y : BitVec 64, y + (y <<< 3) + (y <<< 8) = y * 265#64 := by intro y; bv_decide
-  rw [h, BitVec.mul_assoc]
-  have : 15244667743933553977#64 * 265#64 = 1#64 := by decide
-  rw [this, BitVec.mul_one]
+  have hc : 15244667743933553977#64 * 265#64 = 1#64 := by decide
+  first
+  | rw [h, BitVec.mul_assoc, hc, BitVec.mul_one]
+  | rw [BitVec.mul_assoc, hc, BitVec.mul_one]
 theorem g64_4 (x : BitVec 64) : int64_hash_step4 (int64_hash_inverse_step4 x) = x := by
   unfold int64_hash_inverse_step4 int64_hash_step4; bv_decide
 theorem g64_5 (x : BitVec 64) : int64_hash_step5 (int64_hash_inverse_step3 x) = x := by
   unfold int64_hash_inverse_step3 int64_hash_step5
   have h : ∀ y : BitVec 64, y + (y <<< 2) + (y <<< 4) = y * 21#64 := by intro y; bv_decide
-  rw [h, BitVec.mul_assoc]
-  have : 14933078535860113213#64 * 21#64 = 1#64 := by decide
-  rw [this, BitVec.mul_one]
+  have hc : 14933078535860113213#64 * 21#64 = 1#64 := by decide
+  first
+  | rw [h, BitVec.mul_assoc, hc, BitVec.mul_one]
+  | rw [BitVec.mul_assoc, hc, BitVec.mul_one]
 theorem g64_6 (x : BitVec 64) : int64_hash_step6 (int64_hash_inverse_step2 x) = x := by
   unfold int64_hash_inverse_step2 int64_hash_step6; bv_decide
 theorem g64_7 (x : BitVec 64) : int64_hash_step7 (int64_hash_inverse_step1 x) = x := by
@@ -94,9 +98,10 @@ theorem h32_4 (x : BitVec 32) : int32_hash_inverse_step3 (int32_hash_step4 x) = 
 theorem h32_3 (x : BitVec 32) : int32_hash_inverse_step4 (int32_hash_step3 x) = x := by
   unfold int32_hash_inverse_step4 int32_hash_step3
   have h : x + (x <<< 3) = x * 9#32 := add_shl x 3 9#32 (by decide)
-  rw [h, BitVec.mul_assoc]
-  have : 9#32 * 954437177#32 = 1#32 := by decide
-  rw [this, BitVec.mul_one]
+  have hc : 9#32 * 954437177#32 = 1#32 := by decide
+  first
+  | rw [h, BitVec.mul_assoc, hc, BitVec.mul_one]
+  | rw [BitVec.mul_assoc, hc, BitVec.mul_one]
 theorem h32_2 (x : BitVec 32) : int32_hash_inverse_step5 (int32_hash_step2 x) = x := by
   unfold int32_hash_inverse_step5 int32_hash_step2; bv_decide
 theorem h32_1 (x : BitVec 32) : int32_hash_inverse_step6 (int32_hash_step1 x) = x := by
@@ -124,9 +129,10 @@ theorem g32_2 (x : BitVec 32) : int32_hash_step2 (int32_hash_inverse_step5 x) = 
 theorem g32_3 (x : BitVec 32) : int32_hash_step3 (int32_hash_inverse_step4 x) = x := by
   unfold int32_hash_inverse_step4 int32_hash_step3
   have h : ∀ y : BitVec 32, y + (y <<< 3) = y * 9#32 := fun y => add_shl y 3 9#32 (by decide)
-  rw [h, BitVec.mul_assoc]
-  have : 954437177#32 * 9#32 = 1#32 := by decide
-  rw [this, BitVec.mul_one]
+  have hc : 954437177#32 * 9#32 = 1#32 := by decide
+  first
+  | rw [h, BitVec.mul_assoc, hc, BitVec.mul_one]
+  | rw [BitVec.mul_assoc, hc, BitVec.mul_one]
 theorem g32_4 (x : BitVec 32) : int32_hash_step4 (int32_hash_inverse_step3 x) = x := by
   unfold int32_hash_inverse_step3 int32_hash_step4; bv_decide
 theorem g32_5 (x : BitVec 32) : int32_hash_step5 (int32_hash_inverse_step2 x) = x := by
